@@ -26,9 +26,16 @@ func genC03(t *rapid.T) C03Case {
 		BadVars:  rapid.Bool().Draw(t, "badvars"),
 		Custom:   true, Stateful: true, Consts: true, Aliases: true, BoolW: 6,
 	}}
-	tree := wrapRoot(g.Program(rootTy(t)))
+	var tree *m.Node
+	var wish map[string]bool
+	if rapid.IntRange(0, 5).Draw(t, "chain") == 0 {
+		tree, wish = decisionChain(t)
+	} else {
+		tree = wrapRoot(g.Program(rootTy(t)))
+	}
 	fixEmptyLists(tree)
 	u := UniverseFor(t, tree, false)
+	applyWishes(u, wish)
 	u.Stateless = drawStateless(t)
 	return C03Case{U: *u, Tree: tree, Costs: genCosts(t, tree, finiteCosts), Src: m.Render(tree)}
 }
@@ -71,6 +78,10 @@ func checkC03(c C03Case, r *Rec) *Violation {
 		if v := run.Again("C03", src, u, 2); v != nil {
 			return v
 		}
+		// TryEval evaluates too: with every variable available it performs the same effects
+		if v := run.AgainTry("C03", src, u, 3); v != nil {
+			return v
+		}
 		// was something with an effect really skipped?
 		eag := &m.Env{Vars: u.Bound(), Fail: u.Fail(), Custom: customModel()}
 		eag.EvalAll(run.DTree, nil)
@@ -92,7 +103,7 @@ func checkC03(c C03Case, r *Rec) *Violation {
 
 var propC03 = Prop[C03Case]{
 	ID:    "C03",
-	Rule:  "typed random expression with effectful operands everywhere (variables incl. failing/unbound, logging custom operators incl. failing and stateful ones) x 16 optimization subsets; the engine's ordered log of Get calls and custom-operator calls (name, arguments, result/error) must equal the trace of R (R_fast when FastEvaluation is on; its second-leaf fetch after a deciding first leaf is optional) run on the tree read back from that configuration's Dump. Non-trivial = in some configuration evaluating everything (all operands, both branches) would perform more fetches/calls than were performed, i.e. a part with effects really was skipped; distinct by source + binding",
+	Rule:  "typed random expression with effectful operands everywhere (variables incl. failing/unbound, logging custom operators incl. failing and stateful ones) x 16 optimization subsets; the engine's ordered log of Get calls and custom-operator calls (name, arguments, result/error) must equal the trace of R (R_fast when FastEvaluation is on; its second-leaf fetch after a deciding first leaf is optional) run on the tree read back from that configuration's Dump; Eval, Eval again, and TryEval with every variable available. One case in six is a decision chain: 2..9 nested and/or levels continuing through first / middle / last operands and directly nested ifs, decided (or not) by one innermost boolean. Non-trivial = in some configuration evaluating everything (all operands, both branches) would perform more fetches/calls than were performed, i.e. a part with effects really was skipped; distinct by source + binding",
 	Gen:   genC03,
 	Check: checkC03,
 }
